@@ -124,6 +124,17 @@ def run(ctx):
                 for k, name in enumerate(sorted(pkg.media)):
                     big = 100000 if (ctx.thorough or i == 0) else 5000      # one payload above the 64 KiB copy/encode block size in every run
                     pkg.media[name] = [bytes(rng.randrange(256) for _ in range(big)), bytes(range(256)), b""][k % 3]
+            if i % 7 == 3:
+                # part names are taken literally: a name holding percent escapes is THAT entry, not the entry its decoded spelling would name
+                # (an unreferenced decoy with other bytes sits under the decoded name)
+                for k, name in enumerate(sorted(pkg.media)):
+                    base, _, ext = name.rpartition(".")
+                    new, decoded = "%s%%20n%%41%d.%s" % (base, k, ext), "%s nA%d.%s" % (base, k, ext)
+                    pkg.media[new] = pkg.media.pop(name)
+                    pkg.media[decoded] = b"decoy" + bytes([k])
+                    pkg.rels = [(i_, (t_.replace(name[len("word/"):], new[len("word/"):]) if t_ in (name[len("word/"):], "/" + name) else t_), ty_)
+                                for i_, t_, ty_ in pkg.rels]
+                    pkg.content_types["overrides"] = [(("/" + new) if p_.lstrip("/") == name else p_, c_) for p_, c_ in pkg.content_types["overrides"]]
             named = rng.random() < 0.5
             d = os.path.join(wd.path, "c%d" % i)
             os.makedirs(d)
